@@ -8,7 +8,7 @@
 Require Import ZArith List String Bool Reals.
 Import ListNotations.
 From GLMV Require Import Expr SemR Cat Comm Chk SpecLinAlg SpecProj SpecGeom.
-From W Require Gen_C13 Gen_C13_WXYZ Gen_C13_XYZW P_C13 P_C13_cfg P_C13_dual.
+From W Require Gen_C13 Gen_C13_WXYZ Gen_C13_XYZW P_C13 P_C13_cfg P_C13_dual P_C13_mix.
 Local Open Scope string_scope.
 Theorem C13_lerp_is_affine_blend : P_C13.lerp_ok. Proof. exact P_C13.lerp_def. Qed.
 Theorem C13_slerp_tree_and_formulas : P_C13.slerp_ok "slerp_q". Proof. exact P_C13.slerp_def. Qed.
@@ -22,8 +22,12 @@ Theorem C13_storage_macros_change_nothing :
 Proof. exact P_C13_cfg.storage_macros_change_nothing. Qed.
 (* dual-quaternion lerp: the exact affine blend of x with +-y (sign of dot(x.real, y.real)), end points x and +-y *)
 Theorem C13_dual_quaternion_lerp : P_C13_dual.dual_lerp_ok. Proof. exact P_C13_dual.dual_lerp_def. Qed.
+(* gtx shortMix: end points exactly, shorter arc, affine blend above 1 - epsilon, spherical formula below; fastMix = normalize(lerp) *)
+Theorem C13_gtx_shortMix : P_C13_mix.shortMix_ok. Proof. exact P_C13_mix.shortMix_def. Qed.
+Theorem C13_gtx_fastMix : P_C13_mix.fastMix_ok. Proof. exact P_C13_mix.fastMix_def. Qed.
 Print Assumptions C13_slerp_tree_and_formulas.
 Print Assumptions C13_guards_keep_spherical_branch_defined.
 Print Assumptions C13_spherical_formula_unit_length_constant_speed.
 Print Assumptions C13_storage_macros_change_nothing.
 Print Assumptions C13_dual_quaternion_lerp.
+Print Assumptions C13_gtx_shortMix.
